@@ -97,6 +97,9 @@ def typeOps (op : String) (a : List String) : Option String :=
   | "ty.equal", [x, y] => match tyArg x, tyArg y with
     | some t, some u => some (toString (equal t u))
     | _, _ => none
+  | "ty.staged", [x, y] => match tyArg x, tyArg y with
+    | some t, some u => some (toString (equal t u) ++ " " ++ toString (equal u t) ++ " " ++ outHex (tyString t))
+    | _, _ => none
   | "ty.laws", [_, _, _] => some "ok"
   | "ty.inj", [_, _] => some "ok"
   | "ty.rt", [_] => some "ok"
